@@ -1503,6 +1503,10 @@ class BootstrapElectionModel(BaseElectionModel):
         n_train = reporting_units.shape[0]
         n_test = nonreporting_units.shape[0]
 
+        # we cannot know the county classification of unexpected units (see BaseElectionModel), so they are left out
+        if "county_classification" in aggregate:
+            unexpected_units = unexpected_units.iloc[:0]
+
         all_units = pd.concat([reporting_units, nonreporting_units, unexpected_units], axis=0)
 
         # if we want to aggregate to something that isn't postal_code we need to generate a temporary
@@ -1650,6 +1654,10 @@ class BootstrapElectionModel(BaseElectionModel):
         """
         n_train = reporting_units.shape[0]
         n_test = nonreporting_units.shape[0]
+
+        # we cannot know the county classification of unexpected units (see BaseElectionModel), so they are left out
+        if "county_classification" in aggregate:
+            unexpected_units = unexpected_units.iloc[:0]
 
         all_units = pd.concat([reporting_units, nonreporting_units, unexpected_units], axis=0)
 
